@@ -213,6 +213,16 @@ PROPS = {
         "technique": "property-based testing (rapid): real Dialer/Upgrader pairs plus scripted peers, independent-codec oracle",
         "legs": [leg("^TestC15$", 2500, 25000, qshards=8)],
     },
+    "C17": {
+        "title": "No bytes are lost or reordered at the handshake boundary",
+        "level": "fault_enumeration",
+        "rule": "a rapid-generated conformant stream S (C03 generator: fragmentation, control frames, compression, close) is glued to the handshake and EVERY split is tried. Server: for every k in 0..min(h, len S) the first k bytes sit in the hijacked bufio.Reader of size h in {16,64,128,255,256,257,512,4096,8192} and the rest arrives from the socket under a generated chunking, with Upgrader.ReadBufferSize in {0,1,64,255,256,257,1024} - this selects the three code paths reuse-hijacked-reader / wrap-buffered-bytes / fresh-reader, reported separately. Client: the transport delivers '101 response || S' with the first read returning k bytes for every k in 1..len(response)+len(S) and the rest under a generated chunking, ReadBufferSize in {0,1,64,125,126,300,4096}. Oracle: the messages read from the returned Conn (generated read program) equal the encoded ones, complete and in order, and a glued close frame is reported. Non-trivial = a split strictly inside S.",
+        "assumptions": TRUST,
+        "level_text": "Every split point of each generated stream is enumerated (exhaustive per stream and buffer combination); streams and buffer sizes are sampled. The split point is the injected condition, hence fault_enumeration.",
+        "level_note": "Reference model from the independent encoder.",
+        "technique": "exhaustive split-point enumeration over rapid-generated streams, reference-model oracle",
+        "legs": [leg("^TestC17$", 40, 600, qshards=8)],
+    },
 }
 
 NOT_APPLICABLE = [
